@@ -311,15 +311,18 @@ fn arrow(rng: &mut Rng, ctx: &mut Ctx) {
             let sa = g.frames.into_struct_array(ver, &ports);
             let rows = arrow2::array::Array::len(&sa);
             let d = crate::arrowdump::dump(&sa);
+            let mut lv = vec![]; crate::arrowdump::leaves("", arrow2::array::Array::data_type(&sa), &mut lv);
             let f2 = im::Frame::from_struct_array(sa, ver);
             let g2 = Game { start, end, frames: f2, metadata: md, gecko_codes: gc, hash: None, quirks: q };
             let mut o = vec![]; let w = slippi::write(&mut o, &g2);
-            Ok::<_, String>((d, w.is_ok() && o == b, rows == n))
+            Ok::<_, String>((d, w.is_ok() && o == b, rows == n, lv))
         });
         let mut c = Case::new(format!("into {}", hex(&b)), String::new());
         match res { Err(_) => { c.impl_out = "panic".into(); if zero_ports { tags.push("zero-ports".into()); c.fail("C14", "KNOWN:zero-ports panic in into_struct_array (no occupied port)"); } else { c.fail("C14", "panic in into/from_struct_array"); } }
             Ok(Err(e)) => { c.impl_out = e; c.fail("C14", "well-formed replay rejected"); }
-            Ok(Ok((d, same, rows))) => { c.impl_out = format!("ok {}", d); if !same { c.fail("C14", "from_struct_array(into_struct_array(frames)) does not serialise to the identical .slp"); } if !rows { c.fail("C14", "struct array length != number of frame rows"); } } }
+            Ok(Ok((d, same, rows, lv))) => { c.impl_out = format!("ok {}", d);
+                let exp = spec::arrow_leaves(r.v, &slots_of(&r.start_block));
+                if lv != exp { let i = lv.iter().zip(&exp).position(|(a, b)| a != b).unwrap_or(lv.len().min(exp.len())); c.fail("C14", format!("Arrow schema differs from the per-version field table at leaf {}: {:?} vs {:?}", i, lv.get(i), exp.get(i))); } if !same { c.fail("C14", "from_struct_array(into_struct_array(frames)) does not serialise to the identical .slp"); } if !rows { c.fail("C14", "struct array length != number of frame rows"); } } }
         c.tags = tags; ctx.push(c);
     }
 }
